@@ -119,12 +119,26 @@ Fixpoint tab_mask (tab : list (N * bytes * N)) (e : N) (ct : bytes) : N :=
 
 (* projected state: remote epoch, current read generation, old generations (sorted by the harness),
    per-epoch detectors (created with 2^48-1?, latest, bitmap), per-epoch highest numbers, queue length *)
-Definition pstate : Type := (N * option N * list N * list (bool * N * N) * list N * nat * nat)%type.
+Definition pstate : Type := (N * option N * list N * list (bool * N * list N) * list N * nat * nat)%type.
 
 Definition bitmap_of (m : list bool) : N :=
   fold_right (fun (b : bool) acc => 2 * acc + (if b then 1 else 0)) 0 m.
 
-Definition mask_of_bitmap (W : nat) (n : N) : list bool := map (fun i => N.testbit n (N.of_nat i)) (seq 0 W).
+Fixpoint bits_from (fuel : nat) (i n : N) : list bool :=
+  match fuel with
+  | O => []
+  | S fuel' => N.testbit n i :: bits_from fuel' (i + 1) n
+  end.
+(* the detector's bitmap as the implementation keeps it: 64-bit words, least significant first *)
+Definition mask_of_words (W : nat) (ws : list N) : list bool := firstn W (flat_map (bits_from 64 0) ws).
+Fixpoint words_of (fuel : nat) (m : list bool) : list N :=
+  match fuel with
+  | O => []
+  | S fuel' => match m with
+               | [] => []
+               | _ => bitmap_of (firstn 64 m) :: words_of fuel' (skipn 64 m)
+               end
+  end.
 
 Fixpoint insert_sorted (x : N) (l : list N) : list N :=
   match l with
@@ -135,11 +149,11 @@ Definition sort_N (l : list N) : list N := fold_right insert_sorted [] l.
 
 Definition project_state (s : rstate) : pstate :=
   (r_epoch s, r_cur s, sort_N (r_old s),
-   map (fun x : wentry => (fst x =? maxseq48, latest (snd x), bitmap_of (mask (snd x)))) (r_wins s),
+   map (fun x : wentry => (fst x =? maxseq48, latest (snd x), words_of (length (mask (snd x))) (mask (snd x)))) (r_wins s),
    r_high s, length (r_queue s), length (r_early s)).
 
-Definition wtriple_eqb (a b : bool * N * N) : bool :=
-  let '(a1, a2, a3) := a in let '(b1, b2, b3) := b in Bool.eqb a1 b1 && (a2 =? b2) && (a3 =? b3).
+Definition wtriple_eqb (a b : bool * N * list N) : bool :=
+  let '(a1, a2, a3) := a in let '(b1, b2, b3) := b in Bool.eqb a1 b1 && (a2 =? b2) && list_eqb N.eqb a3 b3.
 
 Definition pstate_eqb (a b : pstate) : bool :=
   let '(ae, ac, ao, aw, ah, aq, ay) := a in
@@ -184,11 +198,11 @@ Definition obs_eqb (a b : obs) : bool :=
   list_eqb bytes_eqb ad bd && list_eqb pair_eqb aa ba && (an =? bn) && Bool.eqb ac bc && pstate_eqb ap bp.
 
 (* initial state given by its projection (the queue is given by its records) *)
-Definition mk_state (W : nat) (re : N) (cur : option N) (old : list N) (wins : list (bool * N * N))
+Definition mk_state (W : nat) (re : N) (cur : option N) (old : list N) (wins : list (bool * N * list N))
   (high : list N) (queue : list bytes) (cid : bytes) (cidneg rrc estab : bool) (early : list bytes) : rstate :=
   mk_rstate re cur old
-    (map (fun t : bool * N * N => let '(m48, l, bm) := t in
-            ((if m48 then maxseq48 else maxseq64), {| latest := l; mask := mask_of_bitmap W bm |})) wins)
+    (map (fun t : bool * N * list N => let '(m48, l, bm) := t in
+            ((if m48 then maxseq48 else maxseq64), {| latest := l; mask := mask_of_words W bm |})) wins)
     high queue cid cidneg rrc false estab (map (fun p => (p, 0, 0)) early).
 
 Record e2e_case := mk_e2e {
